@@ -58,7 +58,7 @@ def load_base():
     return ns
 
 
-def _stub(ns, c, name, uid):
+def _stub(ns, c, name, uid, light=False):
     """an arbitrary existing AST: metadata symbolic, structure irrelevant"""
     Base = ns["Base"]
     n = object.__new__(Base)
@@ -84,7 +84,7 @@ def _stub(ns, c, name, uid):
     own = tuple(a for i, a in enumerate(ku) if k >> i & 1)
     n.annotations = own
     un = [a for a in uni if not (a.eliminatable or a.relocatable)]
-    kb = c.choose([True] * (1 << len(un)), f"below-{name}")
+    kb = 0 if light else c.choose([True] * (1 << len(un)), f"below-{name}")      # light: a template whose sub-expressions play no role
     n._uneliminatable_annotations = frozenset(a for a in own if not (a.eliminatable or a.relocatable)) | frozenset(a for i, a in enumerate(un) if kb >> i & 1)
     n._relocatable_annotations = frozenset(a for a in own if not a.eliminatable and a.relocatable)
     n._errored = set()
@@ -174,7 +174,8 @@ def ob_make_like(tier="quick"):
         ns = _c.get("ns") or _c.setdefault("ns", load_base())
         Base = ns["Base"]
         Base._hash_cache = weakref.WeakValueDictionary()
-        same = c.choose([True, True], "args") == 0
+        shape = c.choose([True, True, True, True], "args")
+        same = shape == 0
         nk = 1 + c.choose([True, True], "n-ast-args") if same else 1
         kids = [_stub(ns, c, f"k{i}", i) for i in range(nk)]
         args = tuple(kids)
@@ -197,9 +198,16 @@ def ob_make_like(tier="quick"):
             if same:
                 # the call shape of Base._apply_to_annotations / annotate / remove_annotations / clear_annotations
                 r = me.make_like(me.op, me.args, annotations=new, skip_child_annotations=True, length=me.length)
-            else:
+            elif shape == 1:
                 # the call shape of every rebuilding traversal (replace_dict, canonicalize, burrow/excavate): new arguments
                 r = me.make_like(me.op, args2, length=me.length)
+            elif shape == 2:
+                # the call shape of the rewriters (extract_simplifier, bitwise_sub_simplifier, excavate_ite): ANOTHER operation is built
+                # "like" an operand that may be a symbol leaf - whose own variables / symbolic flag must not be inherited
+                leaf = _stub(ns, c, "tmpl", 50, light=True)
+                r = leaf.make_like("__and__", args2, length=me.length)
+            else:
+                r = me.make_like("__and__", args2, length=me.length)
         except (PathEnd, Undecided):
             raise
         except Exception as ex:  # noqa
@@ -208,9 +216,13 @@ def ob_make_like(tier="quick"):
             return "raised"
         if same:
             _post(c, "Base.make_like[annotation-edit]", r, "__add__", args, kids, new, True, None, None, None, length)
-        else:
+        elif shape == 1:
             # annotations default to self's; children's relocatable annotations are merged again
             _post(c, "Base.make_like[new-args]", r, "__add__", args2, kids2, me.annotations, False, None, None, None, length)
-        return "same" if same else "new"
+        elif shape == 2:
+            _post(c, "Base.make_like[other-op-like-a-leaf]", r, "__and__", args2, kids2, leaf.annotations, False, None, None, None, length)
+        else:
+            _post(c, "Base.make_like[other-op]", r, "__and__", args2, kids2, me.annotations, False, None, None, None, length)
+        return ["same", "new", "leaf-template", "other-op"][shape]
 
     return explore(body, {"budget_s": 900, "max_depth": 4000, "max_paths": 3000000, "anno_universe": None})
